@@ -20,6 +20,7 @@
 EXTENDS Integers, Sequences, FiniteSets, TLC, Json, IOUtils, SequencesExt
 
 CONSTANTS ExLenRd, ExLenWr,   \* longest exhaustive reader / writer sequence
+          ExLenRf,            \* longest exhaustive writer sequence containing ReadFrom
           ExSizes,            \* sizes of the exhaustive part
           ExEnvSel,           \* which environment set the exhaustive part uses: "quick" | "thorough"
           SimLen,             \* operations per simulated case
@@ -28,7 +29,11 @@ CONSTANTS ExLenRd, ExLenWr,   \* longest exhaustive reader / writer sequence
 
 Big == 524289    \* 512 KiB + 1: larger than mallocMax
 
-Op(k, n) == [k |-> k, n |-> n]
+Op(k, n) == [k |-> k, n |-> n, m |-> 0]
+\* ReadFrom(reader of n bytes behaving in manner m): 0 whatever fits, 1 <= 1000 bytes per call, 2 one byte per call,
+\* 3 io.EOF together with the last bytes, 4 like 1 with three (0, nil) reads before every third delivery
+Rf(n, m) == [k |-> "ReadFrom", n |-> n, m |-> m]
+RfOps == {Rf(0, 0), Rf(1, 3), Rf(100, 2), Rf(4096, 0), Rf(4096, 3), Rf(4097, 1), Rf(4097, 4), Rf(8193, 0)}
 
 RdOps(S) == {Op("Peek", n) : n \in S} \cup {Op("Skip", n) : n \in S} \cup {Op("ReadBinary", n) : n \in S}
             \cup {Op("Read", n) : n \in S} \cup {Op("ReadByte", 1), Op("Release", 0), Op("Len", 0)}
@@ -72,14 +77,20 @@ Case(id, part, target, e, ar, ops) ==
 RdSeqs == SetToSeq(SeqsUpTo(RdOps(ExSizes), ExLenRd) \ {<< >>})
 \* Write (net.Conn.Write: flush + write through) exists on the connection only, not on network.NewWriter
 WrSeqs == SetToSeq(SeqsUpTo(WrOps(ExSizes) \cup {Op("Write", 1), Op("Malloc", 0)}, ExLenWr) \ {<< >>})
+\* Conn.ReadFrom (io.ReaderFrom: streamed bodies) mixed with reserve / write / flush
+RfSeqs == SetToSeq({q \in SeqsUpTo(WrOps(ExSizes) \cup {Op("Write", 1)} \cup RfOps, ExLenRf) :
+                      \E i \in DOMAIN q : q[i].k = "ReadFrom"})
 NwSeqs == SetToSeq(SeqsUpTo(WrOps(ExSizes) \cup {Op("Malloc", 0)}, ExLenWr) \ {<< >>})
 EnvSeq == SetToSeq(ExEnvs)
 
 ExCases ==
-    LET nr == Len(RdSeqs)  ne == Len(EnvSeq)  nw == Len(WrSeqs)  nn == Len(NwSeqs)  b == nr * ne IN
+    LET nr == Len(RdSeqs)  ne == Len(EnvSeq)  nw == Len(WrSeqs)  nn == Len(NwSeqs)  nf == Len(RfSeqs)  b == nr * ne IN
     [i \in 1 .. b |-> Case(i, "rd", "conn", EnvSeq[((i - 1) % ne) + 1], 0, RdSeqs[((i - 1) \div ne) + 1])]
     \o [i \in 1 .. 2 * nw |-> Case(b + i, "wr", "conn", WrEnv, (i - 1) % 2, WrSeqs[((i - 1) \div 2) + 1])]
     \o [i \in 1 .. 2 * nn |-> Case(b + 2 * nw + i, "wr", "nw", WrEnv, (i - 1) % 2, NwSeqs[((i - 1) \div 2) + 1])]
+    \o [i \in 1 .. 2 * nf |-> Case(b + 2 * nw + 2 * nn + i, "rf", "conn", WrEnv, (i - 1) % 2, RfSeqs[((i - 1) \div 2) + 1])]
+    \* minimal case of known finding C13-readfrom-noprogress (every tier reproduces it)
+    \o <<Case(b + 2 * nw + 2 * nn + 2 * nf + 1, "known", "conn", WrEnv, 0, <<Op("Malloc", 8193), Rf(16385, 0), Op("Flush", 0)>>)>>
 
 ASSUME Mode = "exhaustive" => ndJsonSerialize(IOEnv.VERIF_OUT, ExCases)
 
@@ -124,13 +135,14 @@ GRelease == Add(Op("Release", 0)) /\ W(10) /\ UNCHANGED <<pos, known, pend>>
 GLen == Add(Op("Len", 0)) /\ W(2) /\ UNCHANGED <<pos, known, pend>>
 GMalloc == \E n \in WrSizes : Add(Op("Malloc", n)) /\ pend' = pend + n /\ W(1) /\ UNCHANGED <<pos, known>>
 GWriteBinary == \E n \in WrSizes : Add(Op("WriteBinary", n)) /\ pend' = pend + n /\ W(1) /\ UNCHANGED <<pos, known>>
+GReadFrom == \E o \in RfOps \cup {Rf(Big, 1), Rf(20000, 3)} : Add(o) /\ pend' = 0 /\ W(1) /\ UNCHANGED <<pos, known>>
 GFlush == Add(Op("Flush", 0)) /\ pend' = 0 /\ W(4) /\ UNCHANGED <<pos, known>>
 GWrite == \E n \in {1, 4096, 8193} : Add(Op("Write", n)) /\ pend' = 0 /\ W(1) /\ UNCHANGED <<pos, known>>
 
 GenNext == /\ Len(ops) < SimLen
            /\ pend < 3000000     \* keep unflushed data (user buffers held by the driver) bounded
            /\ \/ GPeek \/ GSkipOk \/ GSkipAll \/ GSkipAny \/ GReadByte \/ GReadBinary \/ GRead \/ GRelease \/ GLen
-              \/ GMalloc \/ GWriteBinary \/ GFlush \/ GWrite
+              \/ GMalloc \/ GWriteBinary \/ GFlush \/ GWrite \/ GReadFrom
            /\ UNCHANGED <<env, done, arena>>
 GenNextFlush == /\ Len(ops) < SimLen /\ pend >= 3000000 /\ GFlush /\ UNCHANGED <<env, done, arena>>
 GenDone == Len(ops) = SimLen /\ ~done /\ done' = TRUE /\ UNCHANGED <<env, ops, pos, known, pend, w, arena>>
